@@ -42,6 +42,7 @@ def check(rep: Report, ctx: Ctx) -> None:
     r74(rep, ctx)
     r75(rep, ctx)
     r76(rep, ctx, det)
+    r77(rep, ctx)
 
 
 def r71(rep: Report, ctx: Ctx, det: FuncInfo) -> None:
@@ -325,3 +326,49 @@ def r76(rep: Report, ctx: Ctx, det: FuncInfo) -> None:
     rep.ob("R7.6", "detect_loops hands over the body's dummy entry/exit and "
            "the breaks", ok, fi=det, node=cs[0] if cs else det.node,
            detail=unparse(cs[0])[:110] if cs else "<missing>")
+
+
+def r77(rep: Report, ctx: Ctx) -> None:
+    rep.rule("R7.7", "after the rewrite every node that lost its path from "
+             "the root is pruned (single entry, no event left in both the "
+             "body and the parent)", 3)
+    upd = ctx.func("calculate_updated_graph_with_loop_event")
+    defs = ctx.defs(upd)
+    cfg = ctx.cfg(upd)
+    prune = [c for c in ast.walk(upd.node) if isinstance(c, ast.Call)
+             and call_name(c) == "remove_nodes_without_path_back_to_loop"]
+    if len(prune) != 1:
+        rep.ob("R7.7", "the rewritten graph is pruned", False, fi=upd,
+               node=prune[0] if prune else upd.node,
+               detail=f"{len(prune)} pruning call(s): events copied into the "
+                      "loop body but no longer reachable from the root stay "
+                      "in the parent graph (a second entry, duplicated "
+                      "events)")
+        return
+    c = prune[0]
+    on_all = cfg.every_path_passes(ENTRY, EXIT, {cfg.container(c)})
+    rets = [r for r in ast.walk(upd.node) if isinstance(r, ast.Return)]
+    rep.ob("R7.7", "pruning runs on every path, after the rewiring",
+           on_all and all(c.lineno < r.lineno for r in rets), fi=upd, node=c,
+           detail="remove_nodes_without_path_back_to_loop(...) before "
+                  "return graph")
+    cand = defs.resolve_deep(c.args[0]) if c.args else None
+    ctext = unparse(cand).replace(" ", "") if cand is not None else ""
+    whole = ctext in ("set(graph.nodes)", "graph.nodes", "set(graph)",
+                      "list(graph.nodes)", "set(graph.nodes())",
+                      "graph.nodes()")
+    rep.ob("R7.7", "every node of the rewritten graph is a pruning "
+           "candidate", whole and len(c.args) == 3
+           and unparse(c.args[2]) == "graph", fi=upd, node=c,
+           detail=f"candidates = {unparse(c.args[0]) if c.args else '?'}"
+                  + ("" if whole else " -- only part of the graph is "
+                     "examined: other events that lost their path from the "
+                     "root (e.g. the earlier events of a multi-event break "
+                     "branch) survive next to their copies in the loop "
+                     "body"))
+    anchor = defs.resolve_deep(c.args[1]) if len(c.args) > 1 else None
+    atext = unparse(anchor) if anchor is not None else ""
+    ok = "in_degree" in atext and "== 0" in atext
+    rep.ob("R7.7", "reachability is measured from the graph's root", ok,
+           fi=upd, node=c, detail=f"anchor = {unparse(c.args[1]) if len(c.args) > 1 else '?'} "
+           "(the in-degree-0 event taken before the rewrite)")
